@@ -11,6 +11,8 @@
 // Ambiguity plants (a path in two modules, an import nobody provides, two commits of one name) are
 // enumerated over the same digraphs. strengthen.go adds: a module providing a well-known type (family W),
 // three commits of one name under every map iteration order (family M), registry faults (family F).
+// retarget.go adds the dependency reports (RemoteDepsForModuleSet, unused deps, push deps; family R) and the
+// re-targeting histories (WithTargetOpaqueIDs once and twice, every oracle re-evaluated; family T).
 package c10
 
 import (
@@ -42,6 +44,8 @@ type Case struct {
 	Expected any    `json:"expected,omitempty"`
 	Error    string `json:"error,omitempty"`
 	Files    any    `json:"files,omitempty"`
+	// Retargets is the re-targeting history (family T): the target node sets handed to WithTargetOpaqueIDs, in order.
+	Retargets [][]int `json:"retargets,omitempty"`
 }
 
 type counters struct {
@@ -54,6 +58,9 @@ type counters struct {
 	filtered, layoutSpecs                                                                                atomic.Int64
 	wktDeps, wktImageFiles, threeCommits, dupWKTDemands                                                  atomic.Int64
 	faultSurfaced, faultExact, faultPlantDemands                                                         atomic.Int64
+	remoteDepsCycle, remoteDepsExact, remoteDepsNonEmpty, remoteReachesShadowed, unusedDeps, pushDeps    atomic.Int64
+	lookups, retargets, retargetChains, retargetLs, retargetImages, retargetImagePinnedImports           atomic.Int64
+	remoteDepsPlantDemands                                                                               atomic.Int64
 }
 
 type checker struct {
@@ -146,12 +153,14 @@ func run(r *evid.Run) {
 	if ck.stopEarly {
 		r.Incomplete("C10_STOP_ON_VIOLATION: remaining work is skipped after the first violation")
 	}
-	r.Rule("one case = (module import digraph, node kinds, v1|v2, plant, target); all digraphs on n nodes x all kind vectors that can exist x both config versions x all targets are run; a case is counted distinct non-trivial when its digraph has an edge or it carries a plant (key = spec/target). Further dimensions: a module that itself provides a well-known-type path and is imported through it alone (every node with an in-edge); three commits of one name pinned by three buf.lock files x every assignment of commits to locks x map-iteration start seeds 0..7; registry faults (faulty provider-served module x fault point) on the plain graphs and on the plants")
+	r.Rule("one case = (module import digraph, node kinds, v1|v2, plant, target); all digraphs on n nodes x all kind vectors that can exist x both config versions x all targets are run; a case is counted distinct non-trivial when its digraph has an edge or it carries a plant (key = spec/target). Further dimensions: a module that itself provides a well-known-type path and is imported through it alone (every node with an in-edge); three commits of one name pinned by three buf.lock files x every assignment of commits to locks x map-iteration start seeds 0..7; registry faults (faulty provider-served module x fault point) on the plain graphs and on the plants; re-targeting histories (multi-step): the module set of every opened workspace is re-targeted with WithTargetOpaqueIDs onto every non-empty subset of its modules and, two steps deep, onto pairs of them, and every oracle is evaluated again on the result with the reference recomputed for the new targets (key = spec/target/retarget:history)")
 	r.Assume("registry commits are self-contained and acyclic (a provider-only module imports only provider modules); kind vectors violating this are filtered and counted")
 	r.Assume("create times of two commits of one name differ (ties are C02's business)")
 	r.Assume("an injected registry fault is an error other than fs.ErrNotExist (download failure, digest mismatch, I/O error of the module's bucket); under a fault an observation must fail or still equal the reference, and must not report an ambiguity (cycle, duplicate path, import not provided) the workspace does not have")
 	r.Assume("map iteration order is controlled through the runtime overlay (build tag mapseed): with <= 8 entries the seeds 0..7 give every rotation of the insertion order, and the insertion order of the commits of one name is the order of the buf.lock files, which is enumerated")
 	r.Assume("remote modules are served by an in-process provider (bufmoduletesting.OmniProvider per commit generation, routed by commit id); the CLI families use only modules present locally because the CLI's registry client cannot be replaced offline")
+	r.Assume("the dependency reports derived from a module set (RemoteDepsForModuleSet, the unused-dep report, the push module and dep lists) are judged against the same reference as ModuleDeps: the provider-only modules reachable from the local modules (from the local targets and the local modules they reach, for push) at their effective commits, direct iff a local module of that root set imports them itself; a module present locally is never a remote dep")
+	r.Assume("re-targeting (ModuleSet.WithTargetOpaqueIDs) changes which modules are targets and nothing else: same modules, names, commits, deps; target files are all files of the new target modules, except that a module keeps the path restriction the workspace was opened with (only the history the CLI itself produces, the target module alone, is judged there)")
 	r.Assume("a module that merely reaches a cycle it is not on gets exact deps; the cycle error is demanded only from ModuleDeps of modules on the cycle and from ModuleSetToDAG / dep graph")
 
 	maxN := 3
@@ -185,9 +194,9 @@ func run(r *evid.Run) {
 	setMapSeed(0, true)
 	defer setMapSeed(0, false)
 	// cumulative shares of the time budget, from the measured cost of the families in each tier
-	share := map[string]float64{"graphs": 0.30, "layouts": 0.40, "plants": 0.60, "wkt": 0.70, "multi": 0.75, "faults": 0.80, "cli": 1.0}
+	share := map[string]float64{"graphs": 0.40, "layouts": 0.53, "plants": 0.68, "wkt": 0.78, "multi": 0.81, "faults": 0.85, "cli": 1.0}
 	if !r.Quick() {
-		share = map[string]float64{"graphs": 0.36, "layouts": 0.40, "plants": 0.54, "wkt": 0.67, "multi": 0.82, "faults": 0.85, "cli": 1.0}
+		share = map[string]float64{"graphs": 0.33, "layouts": 0.38, "plants": 0.49, "wkt": 0.72, "multi": 0.83, "faults": 0.85, "cli": 1.0}
 	}
 	families := []struct {
 		name string
@@ -235,6 +244,19 @@ func run(r *evid.Run) {
 	r.Set("clause_fault_surfaced_as_error", c.faultSurfaced.Load())
 	r.Set("clause_fault_not_in_the_way_exact_result", c.faultExact.Load())
 	r.Set("clause_fault_on_plant_demands", c.faultPlantDemands.Load())
+	r.Set("clause_remote_deps_report_exact", c.remoteDepsExact.Load())
+	r.Set("clause_remote_deps_report_nonempty", c.remoteDepsNonEmpty.Load())
+	r.Set("clause_remote_deps_report_cycle_error_demanded", c.remoteDepsCycle.Load())
+	r.Set("clause_remote_module_imports_locally_shadowed_module", c.remoteReachesShadowed.Load())
+	r.Set("clause_remote_deps_report_on_plant_demands", c.remoteDepsPlantDemands.Load())
+	r.Set("clause_unused_dep_report_compared", c.unusedDeps.Load())
+	r.Set("clause_push_dep_list_compared", c.pushDeps.Load())
+	r.Set("clause_pinned_module_lookups", c.lookups.Load())
+	r.Set("retarget_histories", c.retargets.Load())
+	r.Set("retarget_histories_two_steps", c.retargetChains.Load())
+	r.Set("retarget_lsfiles_compared", c.retargetLs.Load())
+	r.Set("retarget_images_compared", c.retargetImages.Load())
+	r.Set("retarget_image_imports_of_pinned_modules", c.retargetImagePinnedImports.Load())
 	r.Set("map_seed_controlled", mapSeedAvailable())
 	neverExercised(r, map[string]int64{
 		"deps exact": c.depsExact.Load(), "isdirect transitive": c.depsWithTransitive.Load(), "cycle": c.cycleDemanded.Load(),
@@ -244,7 +266,11 @@ func run(r *evid.Run) {
 		"missing import":                    c.missDepsDemands.Load() + c.missImageDemands.Load(),
 		"dep through a module-provided wkt": c.wktDeps.Load(), "image with a module-provided wkt": c.wktImageFiles.Load(),
 		"three commits of one name": c.threeCommits.Load(), "duplicate well-known-type path": c.dupWKTDemands.Load(), "fault surfaced": c.faultSurfaced.Load(),
-		"fault on a plant": c.faultPlantDemands.Load(),
+		"fault on a plant":   c.faultPlantDemands.Load(),
+		"remote deps report": c.remoteDepsNonEmpty.Load(), "remote module imports a locally shadowed module": c.remoteReachesShadowed.Load(),
+		"remote deps report on a plant": c.remoteDepsPlantDemands.Load(), "unused dep report": c.unusedDeps.Load(), "push dep list": c.pushDeps.Load(),
+		"pinned module lookups": c.lookups.Load(), "re-targeting histories": c.retargets.Load(), "two-step re-targeting histories": c.retargetChains.Load(),
+		"image of a re-targeted set with imports of a pinned module": c.retargetImagePinnedImports.Load(),
 	})
 }
 
@@ -558,6 +584,17 @@ func (ck *checker) checkCase(ctx context.Context, b *Built, t Target, withImage 
 		} else if !reflect.DeepEqual(gotDAG.Edges, wantDAG.Edges) {
 			ck.violate("dag/wrong-edges", "ModuleSetToDAG edge set differs from the import edges", b, t, Case{Observed: gotDAG, Expected: wantDAG})
 		}
+	}
+
+	// --- lookups by commit id / name, the dependency reports, and the re-targeting histories
+	ck.checkLookups("", b, t, s, ws, nil)
+	reportTargets := s.targetNodes(t)
+	if maskTargets {
+		reportTargets = nil
+	}
+	ck.checkReports("", b, t, s, ws, ws, reportTargets, nil)
+	if !maskTargets && s.MapSeed <= 0 { // family M: the histories run under map seed 0 only
+		ck.checkRetarget(ctx, b, t, s, ws, withImage)
 	}
 
 	// --- ls-files (cheap, every case) and image (bounded)
